@@ -411,7 +411,11 @@ class Impl:
                                                      e.get('step'), e.get('choices')))
         for p in objs:
             out[p.get_id()] = json.loads(json.dumps(await p.get_attrs(), default=str))
-            await p.cleanup()
+            await asyncio.sleep(0)
+            try:
+                await p.cleanup()
+            except asyncio.CancelledError:
+                pass
         return out
 
     async def second_half(self, case, res):
@@ -438,7 +442,11 @@ class Impl:
                 await self.second_half(case, res)
         except Exception as e:  # noqa: BLE001
             import traceback
-            res['error'] = '%s: %s\n%s' % (type(e).__name__, e, traceback.format_exc()[-1500:])
+            chain, c = [], e.__cause__ or e.__context__
+            while c is not None and len(chain) < 6:
+                chain.append('cause: %s: %s' % (type(c).__name__, c))
+                c = c.__cause__ or c.__context__
+            res['error'] = '%s: %s\n%s\n%s' % (type(e).__name__, e, '\n'.join(chain), traceback.format_exc()[-1500:])
             try:
                 await self.shutdown()
             except Exception:  # noqa: BLE001
